@@ -117,10 +117,17 @@ fn metric_of(m: u8) -> (DistanceMetric, Metric, HNSWDistanceMetric) {
 }
 
 fn hnsw_cfg(i: u8) -> HNSWConfig {
-    match i % 3 {
+    let base = match i % 3 {
         0 => HNSWConfig::default(),
         1 => HNSWConfig::high_recall(),
         _ => HNSWConfig::high_speed(),
+    };
+    // the configuration is the caller's: it may name another distance metric than the cosine
+    // similarity that search_similar reports
+    match (i / 3) % 4 {
+        2 => base.with_distance_metric(HNSWDistanceMetric::Euclidean),
+        3 => base.with_distance_metric(HNSWDistanceMetric::DotProduct),
+        _ => base,
     }
 }
 
@@ -937,6 +944,14 @@ fn check_once(c: &Case, ctx: &mut CaseCtx) -> Result<(), Fail> {
                     continue;
                 }
                 let (_, om, hm) = metric_of(cmetric);
+                // mostly an index of the collection's metric; sometimes the caller caches one built
+                // with another metric (scores must still be the collection's)
+                let hm = if keys.len() % 4 == 3 {
+                    ctx.label("coll index of another metric cached");
+                    metric_of(cmetric.wrapping_add(1)).2
+                } else {
+                    hm
+                };
                 let index = HNSWIndex::with_config(HNSWConfig::default().with_distance_metric(hm));
                 let mut ok = true;
                 for k in &keys {
